@@ -99,3 +99,96 @@ func Harness_C17_depth() {
 	}
 	VerifCover("done")
 }
+
+// c17AddRefs commits one table with cnt fresh refs (names t<k>r<j>).
+func c17AddRefs(st *Stack, k, cnt int, payload byte) error {
+	return st.Add(func(w *Writer) error {
+		ui := st.NextUpdateIndex()
+		w.SetLimits(ui, ui)
+		for j := 0; j < cnt; j++ {
+			v := hashWith(20, byte(k), byte(j))
+			v[3] = payload
+			name := "t" + string([]byte{'a' + byte(k)}) + "r" + string([]byte{'a' + byte(j/26), 'a' + byte(j%26)})
+			if err := w.AddRef(&RefRecord{RefName: name, UpdateIndex: ui, Value: v}); err != nil {
+				return err
+			}
+		}
+		return nil
+	})
+}
+
+// Harness_C17_stack: Stack.AutoCompact acts exactly when and where the chooser says: it merges the suggested contiguous range (the stack shrinks by the size of the range minus one) and does nothing exactly when nothing is suggested.
+// bounds: real stacks of 2..4 tables on the model file system, each table holding 1, 2, 12 or 40 refs (so that sizes fall into different power-of-two classes, equal classes at the top, in the middle or at the bottom); one AutoCompact call by the only process; one payload byte symbolic
+// covers: compacted, balanced
+func Harness_C17_stack() {
+	cfg := stackCfg(0)
+	dir := VerifTempDir()
+	st := mustOpen(dir, cfg, "open")
+	if st == nil {
+		return
+	}
+	st.disableAutoCompact = true
+	k := VerifIntRange(2, 4)
+	payload := VerifU8()
+	for i := 0; i < k; i++ {
+		cnt := []int{1, 2, 12, 40}[VerifChoose(4)]
+		VerifAssert(c17AddRefs(st, i, cnt, payload) == nil, "seed-add")
+	}
+	sizes := st.tableSizesForCompaction()
+	seg := suggestCompactionSegment(sizes)
+	n0 := len(st.stack)
+	VerifAssert(n0 == k, "seed-depth")
+	err := st.AutoCompact()
+	VerifAssert(err == nil, "autocompact-error")
+	if seg == nil {
+		VerifAssert(len(st.stack) == n0, "compacted-a-balanced-stack")
+		VerifCover("balanced")
+	} else {
+		VerifAssert(len(st.stack) == n0-(seg.end-seg.start)+1, "suggested-range-not-compacted")
+		VerifCover("compacted")
+	}
+	fin := mustOpen(dir, cfg, "final-open")
+	if fin != nil {
+		VerifAssert(len(fin.stack) == len(st.stack), "list-differs-from-handle")
+	}
+}
+
+// Harness_C17_writer: a real single writer with auto-compaction on: after every one of N identical transactions the stack is at most 2*log2(N) tables deep.
+// bounds: N = 64 transactions (thorough 256) of 1, 2 or 5 fresh refs each through Stack.Add on the model file system, BlockSize 256 or 4096(default) x Unaligned; real table sizes (no size model); one payload byte symbolic
+// covers: done
+func Harness_C17_writer() {
+	cfg := Config{BlockSize: []uint32{256, 0}[VerifChoose(2)], Unaligned: VerifChoose(2) == 1}
+	dir := VerifTempDir()
+	st, err := NewStack(dir, cfg)
+	VerifAssert(err == nil, "open")
+	if err != nil {
+		return
+	}
+	cnt := []int{1, 2, 5}[VerifChoose(3)]
+	payload := VerifU8()
+	maxN := 64 + 192*VerifTier()
+	for n := 1; n <= maxN; n++ {
+		err := st.Add(func(w *Writer) error {
+			ui := st.NextUpdateIndex()
+			w.SetLimits(ui, ui)
+			for j := 0; j < cnt; j++ {
+				v := hashWith(20, byte(n), byte(j))
+				v[3] = payload
+				name := "n" + string([]byte{'a' + byte(n/676), 'a' + byte(n/26%26), 'a' + byte(n%26), 'a' + byte(j)})
+				if err := w.AddRef(&RefRecord{RefName: name, UpdateIndex: ui, Value: v}); err != nil {
+					return err
+				}
+			}
+			return nil
+		})
+		VerifAssert(err == nil, "add")
+		if err != nil {
+			return
+		}
+		if n >= 2 {
+			l := specBitLen(uint64(n)) - 1
+			VerifAssert(len(st.stack) <= 2*l, "depth-bound")
+		}
+	}
+	VerifCover("done")
+}
